@@ -1125,8 +1125,9 @@ class FnEmitter:
         self.labeln += 1
         return 'L_%s_%d' % (base, self.labeln)
 
-    def expr_stmt(self, e, out, ind):
-        """full-expression statement with element-temporary cleanups on both edges"""
+    def expr_stmt(self, e, out, ind, assign_to=None, as_addr=False):
+        """full-expression statement with element-temporary cleanups on both edges; with assign_to the value of the expression is
+        kept in that variable (return statements whose expression creates temporaries)"""
         saved_temps = self.temps_to_destroy
         self.temps_to_destroy = []
         pad = self.new_label('cleanup')
@@ -1136,7 +1137,9 @@ class FnEmitter:
             top = e
             while top.get('kind') in ('ExprWithCleanups', 'ParenExpr') and children(top):
                 top = children(top)[0]
-            if top.get('kind') == 'BinaryOperator' and top.get('opcode') == '=' and not self.tm.is_elem(top['type']):
+            if assign_to is not None:
+                text = '%s = %s' % (assign_to, self.addr(e) if as_addr else self.val(e))
+            elif top.get('kind') == 'BinaryOperator' and top.get('opcode') == '=' and not self.tm.is_elem(top['type']):
                 rhs = self.val(children(top)[1])
                 text = '%s = %s' % (self.lv(children(top)[0]), rhs)
             elif top.get('kind') == 'CompoundAssignOperator':
@@ -1278,7 +1281,14 @@ class FnEmitter:
             saved_temps, self.temps_to_destroy = self.temps_to_destroy, []
             text = self.addr(e) if self.ret_is_ref else self.val(e)
             if self.temps_to_destroy:
-                raise Unsupported('element temporary in return expression')
+                # the return expression creates element temporaries: evaluate it as a full expression into a result variable,
+                # destroy the temporaries on both edges, then return (the first, plain attempt is discarded)
+                self.flush()
+                self.temps_to_destroy = saved_temps
+                rt = self.tmp(self.ret_ctype)
+                self.expr_stmt(e, out, ind, assign_to=rt, as_addr=self.ret_is_ref)
+                out.append(ind + 'return %s;' % rt)
+                return
             self.temps_to_destroy = saved_temps
             for l in self.flush():
                 out.append(ind + l)
